@@ -27,6 +27,7 @@ static const VSpec VM_SPEC[VM_NS] = {
 #define VM_NCFG 4
 #include "tier_c/machine_common.hpp"
 struct Apex : St<0> {}; struct C1 : St<1> {}; struct A : St<2> {}; struct B : St<3> {}; struct C2 : St<4> {}; struct X : St<5> {}; struct Y : St<6> {};
+#define VM_FOR_STATES(F_) F_(Apex, 0) F_(C1, 1) F_(A, 2) F_(B, 3) F_(C2, 4) F_(X, 5) F_(Y, 6)
 #include "tier_c/view.hpp"
 #include "tier_c/steps.hpp"
 #include "tier_c/entries.hpp"
